@@ -1,4 +1,4 @@
-(** PRE-FIX model (kept for the refutation lemmas only; before fix commit 9611840).
+(** PRE-FIX model (kept for the refutation lemmas only; before fix commit 8564431).
     Model of the control-request bookkeeping of internal/agent/agent.go
     (SendControlRequestWithData, handleControlRequest, handleControlResponse)
     for property C39.  Request ids are the agent's own counter 1,2,3,...;
